@@ -49,7 +49,7 @@ def plan(tier, seed):
 def required(tier):
     cl = [f'geom:{k}' for k in KINDS] + [
         'probe:location-interior', 'probe:location-at-waypoint', 'probe:step==location',
-        'probe:overstep', 'probe:refused-out-of-range', 'probe:refused-negative',
+        'probe:overstep', 'probe:overstep-from-beyond-end', 'probe:refused-out-of-range', 'probe:refused-negative',
         'probe:multi-waypoint', 'mission:gc_distance', 'mission:symmetric',
         'oracle:vincenty', 'oracle:closure-only']
     return {'classes': cl, 'evaluations': 3000}
@@ -265,6 +265,16 @@ def run_shard(spec, rec):
                     raise Mismatch('overstep does not continue along the same great circle',
                                    {'extra': extra, 'error_m': err, **case})
                 rec.cls('probe:overstep')
+                # a step that STARTS beyond the end (second of consecutive oversteps)
+                a2 = total + rng.uniform(0.0, extra)
+                b2 = total + extra - a2
+                p2 = gto.step(a2, b2)
+                rec.ev()
+                if check_point(p2, la, lo, 'overstep-from-beyond', case) > tol(last_len + extra):
+                    raise Mismatch('a step starting beyond the end does not land at from+step on '
+                                   'the same great circle', {'from': a2, 'step': b2,
+                                                             'total': total, **case})
+                rec.cls('probe:overstep-from-beyond-end')
                 # the same request is refused when overstepping is not allowed
                 try:
                     gt.step(a, b)
